@@ -401,6 +401,8 @@ func sliceBack(v ssa.Value, pick func(ssa.Value) bool) []ssa.Value {
 			for _, e := range x.Edges {
 				walk(e, d+1)
 			}
+		case *ssa.Extract:
+			walk(x.Tuple, d+1)
 		case *ssa.Call:
 			if !x.Call.IsInvoke() && x.Call.StaticCallee() != nil {
 				for _, a := range x.Call.Args {
